@@ -170,6 +170,31 @@ def evaluate(case):
             return m3.dumps()
         fails += core.file_cycle(m, text, what, "images.json", reload=reload)
     if not fails and case.get("valid", True):
+        fails += core.dict_cycle(m, text, what)
+    if not fails and case.get("valid", True):
+        # an image of the re-read manifest is promoted in place (unified, one more variant); the unchanged file read afterwards
+        # by another object is what it was
+        promoted = None
+        for v in sorted(m2.images):
+            for a in sorted(m2.images[v]):
+                for img in sorted(m2.images[v][a], key=lambda i: i.path):
+                    if promoted is None and not img.unified:
+                        img.unified = True
+                        img.additional_variants.append("Elsewhere")
+                        promoted = img
+        if promoted is not None:
+            try:
+                m5 = Images()
+                m5.loads(text)
+                if m5.dumps() != text:
+                    fails.append("%s: after an image of an earlier re-read manifest was promoted in place (unified, one more variant), "
+                                 "the unchanged file is read and re-written differently" % what)
+            except Exception as exc:
+                fails.append("%s: after an image of an earlier re-read manifest was promoted in place (unified, one more variant), "
+                             "the unchanged file cannot be read: %s: %s" % (what, type(exc).__name__, exc))
+            promoted.additional_variants.remove("Elsewhere")
+            promoted.unified = False
+    if not fails and case.get("valid", True):
         # an already-written manifest is edited and written again: the new values must be in the file
         first = sorted(case["obj"], key=lambda c: (c["v"], c["a"]))[0]
         n = sorted(first["imgs"])[0]
